@@ -6,7 +6,7 @@
    [f] is applied to that fresh node last.  As soon as one application of [f] answers ok=false
    the whole rewrite answers (nil,false) (nothing after that point is visited).
 
-   Per node type, as in the Go switch (read on the tree after /repo f881ef4):
+   Per node type, as in the Go switch (read on the tree after /repo f881ef4 and 2e49243):
 
      Statements            every statement
      InfixExpression       Left, Right
@@ -22,7 +22,7 @@
      MapLiteral            for each key of Order: key, then Pairs[key]; the new map is indexed by
                            the NEW key nodes (Go pointers), see [same] below
      Builtin               every parameter
-     CallExpression        every argument; the Function child is copied UNTOUCHED (not visited)
+     CallExpression        Function, then every argument (the callee is visited since /repo 2e49243)
      Identifier, IntegerLiteral, FloatLiteral, StringLiteral, Boolean, Comment,
      ControlExpression, PostfixExpression        no children: f(copy)
      anything else (e.g. *object.Register used as a node, nil interface)   f(node)
@@ -175,7 +175,9 @@ Section Modify.
     | NArray t e => rbind (mslice (mchild modify_gen) e) (fun e' => f (NArray t e'))
     | NMap t l => rbind (mpairs modify_gen l) (fun l' => f (NMap t (alias_pairs l')))
     | NBuiltin t ps => rbind (mslice (mchild modify_gen) ps) (fun ps' => f (NBuiltin t ps'))
-    | NCall t fn args => rbind (mslice (mchild modify_gen) args) (fun args' => f (NCall t fn args'))
+    | NCall t fn args =>
+        rbind (mchild modify_gen fn) (fun fn' =>
+        rbind (mslice (mchild modify_gen) args) (fun args' => f (NCall t fn' args')))
     | NIdent _ | NInt _ _ | NFloat _ _ | NString _ | NBool _ _ | NComment _ _ _ | NControl _
     | NPostfix _ _ => f n
     end.
